@@ -53,9 +53,10 @@ Theorem svc_ok_certifies_optimality : forall n K y cpos cneg a rho e eeq a',
   svc_obj (mQ K) y a' >= svc_obj (mQ K) y (map Q2R a) - Q2R e * l1R (vsubR a' (map Q2R a)).
 Proof. exact svc_ok_certifies_optimality_l. Qed.
 
-(** the same with every hypothesis about the kernel matrix discharged by run-time checks: [symb] (exact symmetry,
+(** the same with every hypothesis about the kernel matrix discharged by decidable checks: [symb] (exact symmetry,
     n x n) and the exact LDL^T certificate of K + dq I (Common/LDL.v); rounding of the kernel values costs the
-    additional term dq/2 |a' - a|^2 *)
+    additional term dq/2 |a' - a|^2.  Exact elimination on float data is affordable only for n <= 8: the runs
+    evaluate the a-posteriori certificate [psd_cert] instead (C13/PropertiesCert.v, all problem kinds) *)
 Theorem symmetric_check_sound : forall n M, symb n M = true -> wfM n (mQ M) /\ Sym n (mQ M).
 Proof. exact symb_sound. Qed.
 
